@@ -29,7 +29,7 @@ ASSUMPTIONS = [
     '(receiver metadata-free or both functions None, union/union)',
 ]
 ANCHORS = ['Table.merge', 'Table._fast_merge', 'Table._union_id_order', 'Table._intersect_id_order', 'prefer_self']
-REQUIRED = ['other_containers_of_tables', 'operand_list_reused', 'empty_axis_operand_cases', 'empty_axis_operand_merged', 'wide_universe_cases', 'fast_path_taken', 'general_path_taken', 'path_agreement_checked',
+REQUIRED = ['scale_many_operands', 'other_containers_of_tables', 'operand_list_reused', 'empty_axis_operand_cases', 'empty_axis_operand_merged', 'wide_universe_cases', 'fast_path_taken', 'general_path_taken', 'path_agreement_checked',
             'md_tap_calls_checked', 'empty_intersection_refused',
             'list_form', 'overlap_partial', 'overlap_disjoint',
             'overlap_nested', 'overlap_identical', 'mode_union_union',
@@ -399,3 +399,39 @@ def setup(ctx):
         ctx.fast_calls[0] += 1
         return orig(self, others)
     Table._fast_merge = counting
+
+
+def stress(ctx):
+    """Scale: 33, 40, 64, 65 and 130 tables merged in one call (list form,
+    metadata-free: the fast path), ids overlapping between neighbours."""
+    r = ctx.rng('stress')
+    for k in (33, 40, 64, 65, 130):
+        specs = []
+        for j in range(k):
+            obs = ['o%d' % (j % 7), 'o%d' % ((j + 1) % 7), 'only%d' % j]
+            samp = ['s%d' % j, 's%d' % (j + 1)]
+            D = np.array([[float(r.randint(0, 5)) for _ in samp]
+                          for _ in obs])
+            specs.append(gen.Spec(obs, samp, D))
+        tabs = [gen.build(ctx.biom, sp, 'dense') for sp in specs]
+        res = tabs[0].merge(list(tabs[1:]))
+        s_ = snap.snap(res)
+        so = {o for sp in specs for o in sp.obs_ids}
+        ss = {x for sp in specs for x in sp.samp_ids}
+        desc = {'scale': '%d tables merged in one call' % k}
+        if set(s_.obs_ids) != so or set(s_.samp_ids) != ss:
+            raise Violation('C09/observation-id-set', 'scale: %d / %d ids, '
+                            'the operands name %d / %d; %r' %
+                            (len(s_.obs_ids), len(s_.samp_ids), len(so),
+                             len(ss), desc))
+        for a, o in enumerate(s_.obs_ids):
+            for b, x in enumerate(s_.samp_ids):
+                e = sum(sp.D[sp.obs_ids.index(o), sp.samp_ids.index(x)]
+                        for sp in specs if o in sp.obs_ids and
+                        x in sp.samp_ids)
+                if s_.D[a, b] != e:
+                    raise Violation('C09/cell-value/fast', 'scale: (%r,%r) is'
+                                    ' %r, the operands sum to %r; %r' %
+                                    (o, x, float(s_.D[a, b]), float(e), desc))
+        ctx.count('scale_many_operands')
+        ctx.case(desc, True)
